@@ -28,6 +28,9 @@ pub fn build(mut t: Tape) -> Built {
     // names containing spaces form a separately signed sub-domain
     let spaces = t.draw(CFG, 4) == 0;
     let mut st = QuakeState::generate(&mut t, version, 64, spaces);
+    if t.draw(CFG, 4) == 0 {
+        st.add_both_spellings(&mut t);
+    }
     st.fit();
     let family = format!("quake{version}{}", if spaces && st.players.iter().any(|p| p.name.contains(' ')) { "-names-with-spaces" } else { "" });
     let expected = st.expected();
